@@ -782,7 +782,16 @@ func (bal *Balancer) balanceBlock(blkid arvados.SizedDigest, blk *BlockState) ba
 	}
 	blockState := computeBlockState(slots, nil, len(blk.Replicas), 0)
 
-	var lost bool
+	// A referenced block with no replicas anywhere is lost,
+	// whether or not there is a suitable place to put it.
+	lost := false
+	if len(blk.Replicas) == 0 {
+		for _, desired := range blk.Desired {
+			if desired > 0 {
+				lost = true
+			}
+		}
+	}
 	var changes []string
 	for _, slot := range slots {
 		// TODO: request a Touch if Mtime is duplicated.
